@@ -35,6 +35,9 @@ structure Obj where
   proto : Option Nat
   kind : OKind
   dontEnum : List String := []       -- names of the own properties whose [[Enumerable]] is false
+  accs : List (String × String) := []  -- own ACCESSOR properties, name ↦ tag: the getter logs "G<tag>:<receiver>" and
+                                     -- returns "v<tag>", the setter logs "S<tag>:<receiver>:<value>"; not enumerable,
+                                     -- configurable; a name is never both in `props` and in `accs`
   readOnly : List String := []       -- names of the own properties whose [[Writable]] is false (beyond `canPut`'s fixed ones)
   dontDelete : List String := []     -- names of own properties whose [[Configurable]] is false because they are
                                      -- bindings of global code (§10.5 with configurableBindings = false)
@@ -298,8 +301,66 @@ def idx? (p : String) : Option Nat :=
     | some n => if n < 4294967295 then some n else none
     | none => none
 
-/-- [[Get]] (§8.12.3, §10.6 for mapped arguments) -/
-def getProp (σ : St) (base : V) (p : String) : Res V :=
+/-- [[GetProperty]] (§8.12.2) as far as accessors go: the tag of the accessor property `p` that the chain from `a`
+    reaches first (`none`: a data property comes first, or nothing is found) -/
+def findAcc (σ : St) : Nat → Nat → String → Option String
+  | 0, _, _ => none
+  | n+1, a, p =>
+    match σ.obj? a with
+    | none => none
+    | some o =>
+      if (lookupA p o.props).isSome then none
+      else match lookupA p o.accs with
+        | some t => some t
+        | none => match o.proto with
+          | some q => findAcc σ n q p
+          | none => none
+
+/-- the prototype object ToObject would give the wrapper of a primitive (§9.9) -/
+def primProto : V → Option Nat
+  | .str _ => some strProto
+  | .num _ => some numProto
+  | .nan => some numProto
+  | .bool _ => some boolProto
+  | _ => none
+
+/-- what an accessor function logs of its `this` value: the [[Class]], and for a primitive base (which the function
+    sees as a wrapper object, §10.4.3) the primitive -/
+def recvTok (σ : St) (base : V) : String :=
+  match base with
+  | .str s => "String:" ++ s
+  | .num n => "Number:" ++ toString n
+  | .nan => "Number:NaN"
+  | .bool b => "Boolean:" ++ (if b then "true" else "false")
+  | .ref a => (match σ.obj? a with
+    | some o => (match o.kind with
+      | .func .. => "Function" | .bound .. => "Function" | .builtin _ => "Function"
+      | .error _ => "Error" | .args .. => "Arguments" | .plain => "Object")
+    | none => "?")
+  | _ => "?"
+
+/-- the call of the getter / setter of an accessor tagged `t` with this = base -/
+def accGet (σ : St) (t : String) (base : V) : Res V :=
+  .ok (.str ("v" ++ t)) { σ with trace := σ.trace ++ ["sG" ++ t ++ ":" ++ recvTok σ base] }
+/-- what the setter logs of its argument: numbers and strings by value, anything else by its typeof -/
+def accValTok (σ : St) (v : V) : String :=
+  match v with
+  | .num n => "n" ++ toString n
+  | .nan => "nan"
+  | .str s => "s" ++ s
+  | w => typeofV σ w
+def accSet (σ : St) (t : String) (base : V) (v : V) : Res Unit :=
+  .ok () { σ with trace := σ.trace ++ ["sS" ++ t ++ ":" ++ recvTok σ base ++ ":" ++ accValTok σ v] }
+
+/-- the own properties of the String wrapper of a string: length and the index properties (§15.5.5) -/
+def strOwn (s : String) (p : String) : Option V :=
+  if p = "length" then some (.num s.length)
+  else match idx? p with
+    | some i => (match s.toList[i]? with | some ch => some (.str (String.singleton ch)) | none => none)
+    | none => none
+
+/-- [[Get]] for data properties (§8.12.3, §10.6 for mapped arguments) -/
+def getPropD (σ : St) (base : V) (p : String) : Res V :=
   match base with
   | .undef => throwErr σ "TypeError"
   | .null => throwErr σ "TypeError"
@@ -319,6 +380,28 @@ def getProp (σ : St) (base : V) (p : String) : Res V :=
       | .error n => if p = "name" then .ok (.str n) σ else .ok plain σ
       | _ => .ok plain σ
   | _ => .ok .undef σ
+
+/-- [[Get]] (§8.12.3): an accessor found first on the chain is called with this = the base; §8.7.1 the special [[Get]]
+    for a primitive base: the properties of its wrapper, then the wrapper's prototype chain, this = the primitive -/
+def getProp (σ : St) (base : V) (p : String) : Res V :=
+  match base with
+  | .undef => throwErr σ "TypeError"
+  | .null => throwErr σ "TypeError"
+  | .ref a =>
+    (match findAcc σ (σ.heap.length + 1) a p with
+     | some t => accGet σ t base
+     | none => getPropD σ base p)
+  | v =>
+    let own : Option V := match v with | .str s => strOwn s p | _ => none
+    match own with
+    | some w => .ok w σ
+    | none =>
+      match primProto v with
+      | some q =>
+        (match findAcc σ (σ.heap.length + 1) q p with
+         | some t => accGet σ t base
+         | none => .ok (getChain σ (σ.heap.length + 1) q p) σ)
+      | none => .ok .undef σ
 
 def isFnKind : OKind → Bool
   | .func .. => true | .bound .. => true | .builtin _ => true | _ => false
@@ -349,8 +432,8 @@ def mappedAssign (σ : St) (k : OKind) (p : String) (v : V) : St :=
      | none => σ)
   | _ => σ
 
-/-- [[Put]] (§8.12.5; data properties only; a put that [[CanPut]] refuses is ignored: non-strict code) -/
-def putProp (σ : St) (base : V) (p : String) (v : V) : Res Unit :=
+/-- [[Put]] for data properties (§8.12.5; a put that [[CanPut]] refuses is ignored: non-strict code) -/
+def putPropD (σ : St) (base : V) (p : String) (v : V) : Res Unit :=
   match base with
   | .undef => throwErr σ "TypeError"
   | .null => throwErr σ "TypeError"
@@ -365,6 +448,29 @@ def putProp (σ : St) (base : V) (p : String) (v : V) : Res Unit :=
         | none => { o with props := o.props ++ [(p, v)] }
       .ok () (σ1.setObj a o')
   | _ => .ok () σ
+
+/-- [[Put]] (§8.12.5): an accessor found first on the chain has its setter called with this = the base (step 5);
+    §8.7.2 the special [[Put]] for a primitive base: the setter of an inherited accessor is called with
+    this = the primitive, anything else is dropped (the wrapper is transient) -/
+def putProp (σ : St) (base : V) (p : String) (v : V) : Res Unit :=
+  match base with
+  | .undef => throwErr σ "TypeError"
+  | .null => throwErr σ "TypeError"
+  | .ref a =>
+    (match findAcc σ (σ.heap.length + 1) a p with
+     | some t => accSet σ t base v
+     | none => putPropD σ base p v)
+  | b =>
+    let own : Option V := match b with | .str s => strOwn s p | _ => none
+    match own with
+    | some _ => .ok () σ
+    | none =>
+      match primProto b with
+      | some q =>
+        (match findAcc σ (σ.heap.length + 1) q p with
+         | some t => accSet σ t base v
+         | none => .ok () σ)
+      | none => .ok () σ
 
 /-- [[Configurable]] false: a function's length and prototype (§13.2), a bound function's length -/
 def fixedProp (k : OKind) (p : String) : Bool :=
@@ -382,7 +488,7 @@ def unmapKind (k : OKind) (p : String) : OKind :=
   | k => k
 
 /-- [[Delete]] (§8.12.7, §10.6) -/
-def delProp (σ : St) (base : V) (p : String) : Res V :=
+def delPropD (σ : St) (base : V) (p : String) : Res V :=
   match base with
   | .undef => throwErr σ "TypeError"
   | .null => throwErr σ "TypeError"
@@ -396,8 +502,22 @@ def delProp (σ : St) (base : V) (p : String) : Res V :=
                                             dontEnum := o.dontEnum.filter (· != p) })
   | _ => .ok (.bool true) σ
 
-/-- [[HasProperty]] (§8.12.6): own or inherited -/
-def hasProp (σ : St) : Nat → Nat → String → Bool
+/-- [[Delete]] (§8.12.7): an own accessor property goes (it is configurable); §11.4.1 step 4 on a primitive base:
+    [[Delete]] on its wrapper, whose own properties (a string's length and indices) are not configurable -/
+def delProp (σ : St) (base : V) (p : String) : Res V :=
+  match base with
+  | .ref a =>
+    (match σ.obj? a with
+     | some o =>
+       (match lookupA p o.accs with
+        | some _ => .ok (.bool true) (σ.setObj a { o with accs := removeA p o.accs })
+        | none => delPropD σ base p)
+     | none => delPropD σ base p)
+  | .str s => .ok (.bool (strOwn s p).isNone) σ
+  | b => delPropD σ b p
+
+/-- [[HasProperty]] (§8.12.6) for data properties: own or inherited -/
+def hasPropD (σ : St) : Nat → Nat → String → Bool
   | 0, _, _ => false
   | n+1, a, p =>
     match σ.obj? a with
@@ -406,8 +526,12 @@ def hasProp (σ : St) : Nat → Nat → String → Bool
       match lookupA p o.props with
       | some _ => true
       | none => match o.proto with
-        | some q => hasProp σ n q p
+        | some q => hasPropD σ n q p
         | none => false
+
+/-- [[HasProperty]] (§8.12.6): a data or an accessor property, own or inherited -/
+def hasProp (σ : St) (n : Nat) (a : Nat) (p : String) : Bool :=
+  hasPropD σ n a p || (findAcc σ n a p).isSome
 
 /-- §10.2.2.1 GetIdentifierReference: the environment whose record has the binding (`none` =
     unresolvable).  Declarative records: HasBinding; object records (the global one, and those made
@@ -473,10 +597,13 @@ def toObject (σ : St) (v : V) : Res Nat :=
   | .str s =>
     let cs := s.toList
     let idx : List (String × V) := ((List.range cs.length).zip cs).map fun (i, ch) => (toString i, V.str (String.singleton ch))
-    let (a, σ') := σ.alloc { props := idx ++ [("length", .num cs.length)], proto := some objProto, kind := .plain, dontEnum := ["length"] }
+    let (a, σ') := σ.alloc { props := idx ++ [("length", .num cs.length)], proto := some strProto, kind := .plain, dontEnum := ["length"] }
+    .ok a σ'
+  | .bool _ =>
+    let (a, σ') := σ.alloc { props := [], proto := some boolProto, kind := .plain }
     .ok a σ'
   | _ =>
-    let (a, σ') := σ.alloc { props := [], proto := some objProto, kind := .plain }
+    let (a, σ') := σ.alloc { props := [], proto := some numProto, kind := .plain }
     .ok a σ'
 
 /-- §12.6.4: the properties for-in is to visit, as (owner, name): the enumerable own properties of the
@@ -650,7 +777,7 @@ def evalE : Nat → FE → Ctx → St → Res V
                 -- §10.6 [[DefineOwnProperty]] step 5.b.i: the value also goes to a joined parameter
                 let σ3 : St := mappedAssign σ2 ob.kind p v
                 .ok b (σ3.setObj a { ob with props := props', dontEnum := p :: ob.dontEnum.filter (· != p),
-                                             readOnly := ob.readOnly.filter (· != p) })
+                                             readOnly := ob.readOnly.filter (· != p), accs := removeA p ob.accs })
               | none => .ok b σ2)
            | _ => throwErr σ2 "TypeError")
         | r => r
@@ -676,7 +803,7 @@ def evalE : Nat → FE → Ctx → St → Res V
                 .ok b (σ3.setObj a { ob with props := props', kind := unmapKind ob.kind p,
                                              dontEnum := p :: ob.dontEnum.filter (· != p),
                                              readOnly := p :: ob.readOnly.filter (· != p),
-                                             dontDelete := p :: ob.dontDelete.filter (· != p) })
+                                             dontDelete := p :: ob.dontDelete.filter (· != p), accs := removeA p ob.accs })
               | none => .ok b σ2)
            | _ => throwErr σ2 "TypeError")
         | r => r
@@ -700,7 +827,7 @@ def evalE : Nat → FE → Ctx → St → Res V
                 let σ3 : St := mappedAssign σ2 ob.kind p v
                 .ok b (σ3.setObj a { ob with props := props', kind := unmapKind ob.kind p,
                                              dontEnum := ob.dontEnum.filter (· != p),
-                                             readOnly := p :: ob.readOnly.filter (· != p) })
+                                             readOnly := p :: ob.readOnly.filter (· != p), accs := removeA p ob.accs })
               | none => .ok b σ2)
            | _ => throwErr σ2 "TypeError")
         | r => r
@@ -853,6 +980,60 @@ def evalE : Nat → FE → Ctx → St → Res V
       match evalE n t c σ with
       | .ok tv σ1 => if truthy tv then evalE n a c σ1 else evalE n b c σ1
       | r => r
+    | .wproto k =>
+      .ok (.ref (if k = "String" then strProto else if k = "Number" then numProto else if k = "Boolean" then boolProto else objProto)) σ
+    | .defAcc o p t =>
+      -- §15.2.3.6 with the accessor descriptor {get, set, enumerable: false, configurable: true}; returns the object
+      match evalE n o c σ with
+      | .ok (.ref a) σ1 =>
+        (match σ1.obj? a with
+         | some ob =>
+           -- §8.12.9 step 9.a: a non-configurable data property cannot become an accessor
+           if (fixedProp ob.kind p || ob.dontDelete.contains p) && (lookupA p ob.props).isSome then throwErr σ1 "TypeError" else
+           -- §10.6 [[DefineOwnProperty]] step 5.a: an accessor descriptor removes the index from the parameter map
+           .ok (.ref a) (σ1.setObj a { ob with props := removeA p ob.props, kind := unmapKind ob.kind p,
+                                               dontEnum := ob.dontEnum.filter (· != p),
+                                               readOnly := ob.readOnly.filter (· != p),
+                                               accs := (removeA p ob.accs) ++ [(p, t)] })
+         | none => .ok (.ref a) σ1)
+      | .ok _ σ1 => throwErr σ1 "TypeError"
+      | r => r
+    | .opSet o p e1 =>
+      -- §11.13.2 `o.p += e`: the reference (with CheckObjectCoercible), GetValue of it, then the right-hand side,
+      -- the sum, PutValue
+      match evalE n o c σ with
+      | .ok b σ1 =>
+        if b == .undef || b == .null then throwErr σ1 "TypeError" else
+        (match getProp σ1 b p with
+         | .ok lv σ2 =>
+           (match evalE n e1 c σ2 with
+            | .ok rv σ3 =>
+              let r : V := match lv, rv with
+                | .str x, _ => .str (x ++ toStr rv)
+                | _, .str y => .str (toStr lv ++ y)
+                | _, _ => (match toNum lv, toNum rv with | some x, some y => .num (x + y) | _, _ => .nan)
+              (match putProp σ3 b p r with
+               | .ok _ σ4 => .ok r σ4
+               | .throw t σ4 => .throw t σ4
+               | .fuel => .fuel)
+            | r => r)
+         | r => r)
+      | r => r
+    | .incr o p =>
+      -- §11.3.1 `o.p++`: oldValue = ToNumber(GetValue), PutValue(oldValue + 1), the result is oldValue
+      match evalE n o c σ with
+      | .ok b σ1 =>
+        if b == .undef || b == .null then throwErr σ1 "TypeError" else
+        (match getProp σ1 b p with
+         | .ok lv σ2 =>
+           let old : V := match toNum lv with | some x => .num x | none => .nan
+           let nw : V := match toNum lv with | some x => .num (x + 1) | none => .nan
+           (match putProp σ2 b p nw with
+            | .ok _ σ3 => .ok old σ3
+            | .throw t σ3 => .throw t σ3
+            | .fuel => .fuel)
+         | r => r)
+      | r => r
     | .protoOf e1 =>
       -- §15.2.3.2: TypeError unless the argument is an object
       match evalE n e1 c σ with
@@ -987,12 +1168,15 @@ def callFn : Nat → St → V → V → List V → Res V
         | .func code cenv =>
           match code with
           | .func _ ps vs ds body =>
-            -- §10.4.3
-            let thisV : V := match thisArg with
-              | .undef => .ref gObj
-              | .null => .ref gObj
-              | t => t
-            let (i, σ1) := σ.newEnv { vars := [], outer := some cenv }
+            -- §10.4.3: undefined / null → the global object (step 2), any other non-object → ToObject (step 3)
+            let (thisV, σ0) : V × St := match thisArg with
+              | .undef => (.ref gObj, σ)
+              | .null => (.ref gObj, σ)
+              | .ref a => (.ref a, σ)
+              | t => (match toObject σ t with
+                | .ok a σ' => (.ref a, σ')
+                | _ => (t, σ))
+            let (i, σ1) := σ0.newEnv { vars := [], outer := some cenv }
             let c : Ctx := { env := i, venv := i, this := thisV }
             match instantiate n i c ps args fv ds vs σ1 with
             | .ok _ σ5 =>
